@@ -245,6 +245,11 @@ def bound_geoms(doc):
     out = []
     for s in doc.scenes:
         out.extend(s.objects('geometry'))
+    for s in doc.scenes:
+        for bc in s.objects('controller'):
+            g = getattr(bc, 'geometry', None)
+            if g is not None:
+                out.append(g)
     return out
 
 
@@ -304,6 +309,8 @@ def _run_query(doc, op):
             g = getattr(o, 'geometry', None)
             if g is not None and hasattr(g, 'primitives') and callable(g.primitives):
                 res.append([canon(p) for p in g.primitives()])
+                for bsp in o.primitives():
+                    res.append([len(bsp), [canon(x) for x in list(bsp.shapes())[:3]]])
         return res
     if k == 'node_objects':
         sc = pick(doc.scenes, 0)
@@ -312,6 +319,26 @@ def _run_query(doc, op):
         n = pick(sc.nodes, op[2])
         m = numpy.array(op[3], dtype=numpy.float32).reshape(4, 4) if op[3] else None
         return [canon(o) for o in n.objects(op[1], m)]
+    if k == 'partial_iter':
+        # traversals that are started and abandoned
+        sc = doc.scene
+        res = []
+        if sc is not None:
+            it = sc.objects(op[1])
+            first = next(it, None)
+            res.append(canon(first))
+            del it
+            for n in sc.nodes[:2]:
+                it2 = n.objects(op[1])
+                res.append(canon(next(it2, None)))
+        bg = pick(bound_geoms(doc), op[2])
+        if bg is not None:
+            pit = bg.primitives()
+            bp = next(pit, None)
+            if bp is not None:
+                sit = bp.shapes()
+                res.append(canon(next(sit, None)))
+        return res
     if k in ('shapes', 'polygon_triangles', 'bound_triangleset', 'bound_item'):
         bg = pick(bound_geoms(doc), op[1])
         if bg is None:
@@ -351,8 +378,14 @@ def _run_query(doc, op):
             ts = p.triangleset()
             return [canon(ts), len(ts), canon(ts.index), [canon(ts[i]) for i in range(min(len(ts), op[3]))]]
         if k == 'unbound_item':
+            import itertools
             n = len(p)
-            return [n, canon(p[op[3] % n]) if n else None]
+            it = p[op[3] % n] if n else None
+            res = [n, canon(it)]
+            if it is not None and hasattr(it, 'triangles'):
+                res.append([canon(t) for t in it.triangles()])
+            res.append([canon(x) for x in itertools.islice(iter(p), 4)])
+            return res
         if k == 'prim_props':
             return [canon(getattr(p, a)) for a in ('vertex', 'normal', 'texcoordset', 'textangentset', 'texbinormalset',
                                                    'vertex_index', 'normal_index', 'texcoord_indexset',
@@ -421,13 +454,21 @@ def own_check(doc, op):
     unbound_before = W.locations(doc)
     again_before = canon(pick(list(pick(bound_geoms(doc), op[1]).primitives()), op[2]))
     touched = 0
-    for a in ('_vertex', '_normal'):
-        arr = getattr(bp, a, None)
-        if isinstance(arr, numpy.ndarray) and arr.size:
-            arr += 1.5
-            arr *= -3.0
-            arr[0] = 77.0
-            touched += 1
+    targets = [bp]
+    if hasattr(bp, 'triangleset'):
+        try:
+            targets.append(bp.triangleset())
+        except Exception:  # noqa
+            pass
+        unbound_before = W.locations(doc)     # the triangulation cache is filled now
+    for tgt in targets:
+        for a in ('_vertex', '_normal'):
+            arr = getattr(tgt, a, None)
+            if isinstance(arr, numpy.ndarray) and arr.size:
+                arr += 1.5
+                arr *= -3.0
+                arr[0] = 77.0
+                touched += 1
     ch = W.diff(unbound_before, W.locations(doc))
     again_after = canon(pick(list(pick(bound_geoms(doc), op[1]).primitives()), op[2]))
     why = None
